@@ -328,4 +328,211 @@ theorem keepalive_seq (opt : Bool) (base : Bytes) : ∀ (l : List (Sent × Plan)
     simp only [if_true]
     rw [ih i' hlive (fun sp h => hk sp (List.mem_cons_of_mem _ h)) hdat]
 
+
+/-! ## the sender's chunk framing is RFC 7230 chunked transfer coding -/
+
+namespace Spec
+
+/-- value of one hexadecimal digit (RFC 5234 HEXDIG, either case) -/
+def hexDigitValue (c : UInt8) : Option Nat :=
+  if 48 ≤ c ∧ c ≤ 57 then some (c.toNat - 48)
+  else if 97 ≤ c ∧ c ≤ 102 then some (c.toNat - 87)
+  else if 65 ≤ c ∧ c ≤ 70 then some (c.toNat - 55)
+  else none
+
+def hexStep (acc : Option Nat) (c : UInt8) : Option Nat :=
+  match acc, hexDigitValue c with
+  | some a, some d => some (16 * a + d)
+  | _, _ => none
+
+/-- chunk-size = 1*HEXDIG -/
+def hexValue (s : Bytes) : Option Nat := if s.isEmpty then none else s.foldl hexStep (some 0)
+
+/-- RFC 7230 §4.1 (no extensions, no trailers): `chunked-body = *chunk last-chunk CRLF`,
+`chunk = chunk-size CRLF chunk-data CRLF` with `chunk-size > 0`; second index = the decoded payload -/
+inductive ChunkedBody : Bytes → Bytes → Prop
+  | last : ChunkedBody [48, 13, 10, 13, 10] []
+  | chunk (sz d w b : Bytes) : hexValue sz = some d.length → d ≠ [] → ChunkedBody w b →
+      ChunkedBody (sz ++ [13, 10] ++ d ++ [13, 10] ++ w) (d ++ b)
+
+end Spec
+
+theorem spec_hex_digit : ∀ d, d < 16 → Spec.hexDigitValue (hexDigit d) = some d := by decide
+
+theorem spec_fold_hex (xs : Bytes) (hx : ∀ c ∈ xs, IsHexD c) : ∀ y, xs.foldl Spec.hexStep (some y) = some (hexLoop xs y) := by
+  induction xs with
+  | nil => intro y; rfl
+  | cons c t ih =>
+    intro y
+    obtain ⟨d, hd, hc⟩ := hx c List.mem_cons_self
+    subst hc
+    simp only [List.foldl_cons, Spec.hexStep, spec_hex_digit d hd, hexLoop, (hex_digit d hd).1]
+    exact ih (fun c h => hx c (List.mem_cons_of_mem _ h)) _
+
+theorem spec_hexValue_hexLower (n : Nat) : Spec.hexValue (hexLower n) = some n := by
+  unfold Spec.hexValue
+  have hne : (hexLower n).isEmpty = false := by
+    have := hexLower_ne_nil n
+    cases h : hexLower n with
+    | nil => exact absurd h this
+    | cons a t => rfl
+  simp only [hne, Bool.false_eq_true, if_false]
+  rw [spec_fold_hex _ (hexLower_mem n)]
+  have := hexLoop_hexRev (n + 1) n (by omega)
+  unfold hexLower
+  rw [this]
+
+theorem writeLoop_chunked_spec (blk : Nat) (hb : 0 < blk) : ∀ (wf : Nat) (b w p : Bytes), b.length ≤ wf → Spec.ChunkedBody w p →
+    Spec.ChunkedBody (writeLoop true blk wf b ++ w) (b ++ p) := by
+  intro wf
+  induction wf with
+  | zero =>
+    intro b w p h hw
+    have : b = [] := List.eq_nil_of_length_eq_zero (by omega)
+    subst this; simpa [writeLoop] using hw
+  | succ wf ih =>
+    intro b w p h hw
+    by_cases he : b.isEmpty = true
+    · have := List.isEmpty_iff.mp he; subst this; simpa [writeLoop] using hw
+    · have hf0 : b.isEmpty = false := by simpa using he
+      have hne : b ≠ [] := by intro h0; subst h0; simp at he
+      have hl : 0 < b.length := List.length_pos_iff.mpr hne
+      rw [writeLoop]
+      simp only [hf0, Bool.false_eq_true, if_false, frameBlock, if_true]
+      have hrec := ih (b.drop (min b.length blk)) w p (by rw [List.length_drop]; omega) hw
+      have htk : b.take (min b.length blk) ≠ [] := by
+        intro h0
+        have : (b.take (min b.length blk)).length = 0 := by rw [h0]; rfl
+        rw [List.length_take] at this; omega
+      have := Spec.ChunkedBody.chunk (hexLower (b.take (min b.length blk)).length) (b.take (min b.length blk)) _ _
+        (spec_hexValue_hexLower _) htk hrec
+      rw [← List.append_assoc (b.take _), List.take_append_drop] at this
+      simpa [crlf, List.append_assoc] using this
+
+/-- **sender conformance.**  What `write(part)` puts on the wire for any list of parts and any block size, followed
+by the last chunk, is a chunked body in the sense of RFC 7230 whose payload is the concatenation of the parts. -/
+theorem sender_chunked_conforms (blk : Nat) (hb : 0 < blk) : ∀ parts : List Bytes,
+    Spec.ChunkedBody ((parts.map (writeBody true blk)).flatten ++ lastChunk) parts.flatten := by
+  intro parts
+  induction parts with
+  | nil => exact Spec.ChunkedBody.last
+  | cons p t ih =>
+    have := writeLoop_chunked_spec blk hb p.length p _ _ (Nat.le_refl _) ih
+    simpa [writeBody, List.append_assoc] using this
+
+/-! ## the blocking socket loops complete partial transfers -/
+
+/-- **partial_io_complete (write).**  Whatever non-empty prefix each `send` accepts (`sched` is arbitrary), the loop
+of `Socket_::write` hands every byte to the OS once, in order, and returns the full size. -/
+theorem partial_io_complete (sched : List Nat) (data : Bytes) : sockWrite sched data = (data, data.length) := by
+  unfold sockWrite
+  by_cases he : data.isEmpty = true
+  · simp [he, List.isEmpty_iff.mp he]
+  · have hne : data ≠ [] := by intro h0; subst h0; simp at he
+    have he' : data.isEmpty = false := by simpa using he
+    simp only [he', Bool.false_eq_true, if_false]
+    rw [sockWriteLoop_all data.length sched data [] 0 (Nat.le_refl _) hne]
+    simp
+
+/-- **partial_io_complete (read).**  Whatever non-empty piece each `read` returns, the loop of `Socket_::read` stores
+exactly the next `size` bytes of the stream, in order, without error, when they arrive. -/
+theorem partial_read_complete (sched : List Nat) (inc : Bytes) (size : Nat) (hs : 0 < size) (h : size ≤ inc.length) :
+    sockRead sched inc size = (inc.take size, false) := by
+  unfold sockRead
+  have : ¬ size = 0 := by omega
+  simp only [this, if_false]
+  rw [sockReadLoop_all size sched inc [] size (Nat.le_refl _) hs h]
+  simp
+
+/-! ## file ranges -/
+
+/-- **range_spec.**  `putFile(path, b, e)` on a file of `n` bytes (after the repairs 0c0d05b, 6809b13): the range is
+accepted exactly when `0 ≤ b ≤ e' < n` where `e'` is `e`, or `n-1` for the open end `e = 0`; then the announced range is
+`b-e'`, the announced length `e'-b+1`, and the bytes written are exactly bytes `b..e'` of the file (RFC 7233
+byte-range-spec).  Otherwise the range is answered as unsatisfiable (`bytes */n`). -/
+theorem range_spec (content : Bytes) (b e e' : Int) (he' : e' = if e = 0 then (content.length : Int) - 1 else e) :
+    (0 ≤ b ∧ b ≤ e' ∧ e' < content.length →
+        rangeOf content.length b e = some (b.toNat, e'.toNat) ∧
+        fileSlice content b.toNat e'.toNat = (content.drop b.toNat).take (e'.toNat - b.toNat + 1) ∧
+        (fileSlice content b.toNat e'.toNat).length = e'.toNat - b.toNat + 1 ∧
+        (∀ k, k < e'.toNat - b.toNat + 1 → (fileSlice content b.toNat e'.toNat)[k]? = content[b.toNat + k]?)) ∧
+    (¬ (0 ≤ b ∧ b ≤ e' ∧ e' < content.length) → rangeOf content.length b e = none) := by
+  constructor
+  · intro ⟨h0, h1, h2⟩
+    have hr : rangeOf content.length b e = some (b.toNat, e'.toNat) := by
+      unfold rangeOf
+      simp only [← he']
+      have : ¬ (e' < b ∨ b < 0 ∨ e' ≥ (content.length : Int)) := by omega
+      simp only [this, if_false]
+    have hslice : fileSlice content b.toNat e'.toNat = (content.drop b.toNat).take (e'.toNat - b.toNat + 1) := by
+      unfold fileSlice
+      by_cases hc : b.toNat ≠ e'.toNat ∨ b.toNat > 0
+      · rw [if_pos hc]
+      · rw [if_neg hc]
+        have hb0 : b.toNat = 0 := by omega
+        have he0 : e'.toNat = 0 := by omega
+        rw [hb0, he0]
+        -- (0, 0) reads the whole file: it has one byte
+        have hn1 : content.length = 1 := by
+          have h00 : e' = 0 := by omega
+          rw [h00] at he'
+          by_cases hez : e = 0
+          · simp only [hez, if_true] at he'; omega
+          · simp only [hez, if_false] at he'; exact absurd he'.symm hez
+        simp only [List.drop_zero, Nat.sub_self, Nat.zero_add]
+        rw [← hn1, List.take_length]
+    refine ⟨hr, hslice, ?_, ?_⟩
+    · rw [hslice, List.length_take, List.length_drop]; omega
+    · intro k hk
+      rw [hslice, List.getElem?_take_of_lt hk, List.getElem?_drop]
+  · intro h
+    unfold rangeOf
+    simp only [← he']
+    have : (e' < b ∨ b < 0 ∨ e' ≥ (content.length : Int)) := by omega
+    simp only [this, if_true]
+
+
+/-! ## the hypotheses are satisfiable (no vacuous theorem) -/
+
+/-- `GET /a?x=1` to 127.0.0.1:8080 with header `X-A: v 1` and the 3-byte body NUL CR LF -/
+def exampleSent : Sent :=
+  { method := [71, 69, 84], target := [47, 97, 63, 120, 61, 49], host := [49, 50, 55, 46, 48, 46, 48, 46, 49], port := 8080,
+    hs := [([88, 45, 65], [118, 32, 49])], body := [0, 13, 10] }
+
+example : WFRequest exampleSent.method exampleSent.target exampleSent.host exampleSent.port exampleSent.hs exampleSent.body := by
+  refine ⟨?_, ?_, ?_, ?_, ?_, ?_, ?_, ?_⟩
+  · unfold WFWord; decide
+  · unfold WFWord; decide
+  · decide
+  · unfold WFValue; decide
+  · unfold FitsLine; decide
+  · unfold WFHeaders WFName WFValue FitsLine; decide
+  · unfold NoFraming; decide
+  · decide
+
+example : exampleSent.Keeps true := by
+  refine ⟨?_, ?_, ?_, ?_⟩
+  · refine ⟨?_, ?_, ?_, ?_, ?_, ?_, ?_, ?_⟩
+    · unfold WFWord; decide
+    · unfold WFWord; decide
+    · decide
+    · unfold WFValue; decide
+    · unfold FitsLine; decide
+    · unfold WFHeaders WFName WFValue FitsLine; decide
+    · unfold NoFraming; decide
+    · decide
+  · decide
+  · decide
+  · intro h; exact absurd h.1 (by decide)
+
+/-- the model run on the example: the handler's view of the request carries the 3 body bytes and the header -/
+example : (readRequest (Inp.ofBytes exampleSent.wire [1, 5, 40])).1.body = [0, 13, 10] ∧
+    header (readRequest (Inp.ofBytes exampleSent.wire [1, 5, 40])).1.headers [120, 45, 97] = [118, 32, 49] := by decide
+
+example : IsProto sHttp11 := Or.inl rfl
+example : WFHeaders [([88, 45, 65], [118, 32, 49])] ∧ NoFraming [([88, 45, 65], [118, 32, 49])] := by
+  constructor
+  · unfold WFHeaders WFName WFValue FitsLine; decide
+  · unfold NoFraming; decide
+
 end C10
